@@ -223,6 +223,7 @@ def run_case(idx, rng, P, rep):
         ev = Even(default=2)
         go = param.Event(default=True)                  # (an Event may be declared 'set'; it falls back to False when assigned)
         cgo = param.Event(default=True, constant=True)
+        xy = param.Composite(attribs=['x', 'y'])       # assigning it assigns x and y
         x = param.Number(default=1.0, bounds=(0, 10), allow_refs=True)
         y = param.Number(default=1.5, bounds=(0, 10), inclusive_bounds=(True, False), allow_refs=True)
         s = param.String(default='a', regex='^a', allow_refs=True)
@@ -322,10 +323,11 @@ def run_case(idx, rng, P, rep):
                        'unchecked-selector'])
     route = rng.choice(['inst', 'inst', 'update1', 'updateN', 'class'])
     if kind == 'plain-invalid':
-        tp = rng.choice(['x', 'y', 's', 'sel', 'nanp', 'ev', 'go'])
+        tp = rng.choice(['x', 'y', 's', 'sel', 'nanp', 'ev', 'go', 'xy'])
         # (a complex number is a number: comparing it with the bounds is what fails, with a TypeError)
         bad = {'x': rng.choice([99, -1, 'str', float('nan'), 1 + 2j]), 'y': rng.choice([10, 'str', 2j]), 's': rng.choice(['zzz', 5]),
-               'sel': 'outsider', 'nanp': rng.choice(['str', [1]]), 'ev': rng.choice([3, 'odd', 7]), 'go': rng.choice(['yes', 5, None])}[tp]
+               'sel': 'outsider', 'nanp': rng.choice(['str', [1]]), 'ev': rng.choice([3, 'odd', 7]), 'go': rng.choice(['yes', 5, None]),
+               'xy': rng.choice([[5.0, 99], [99, 5.0], [6.0, 10], [1.0, 2.0, 3.0], [7.0, 'str']])}[tp]
     elif kind == 'ref-invalid':
         tp = rng.choice(['x', 'y', 's'])
         src = rng.choice([s1, s2])
@@ -375,7 +377,8 @@ def run_case(idx, rng, P, rep):
         snap = {}
         for k, o in objs.items():
             for p in o.param:
-                snap[('val', k, p)] = id(getattr(o, p))
+                # (a Composite hands out a new list of its constituents' values on every read)
+                snap[('val', k, p)] = id(getattr(o, p)) if p != 'xy' else tuple(id(v_) for v_ in getattr(o, p))
             ws = o.param.watchers
             snap[('watchers', k)] = tuple(sorted((p, what, tuple(id(w) for w in lst)) for p, d in ws.items() for what, lst in d.items()))
         for p in ('x', 'y', 's', 'sel', 'c', 'r', 'plain', 'csel', 'rsel', 'nanp', 'ev', 'go', 'cgo'):
